@@ -1,20 +1,20 @@
 SPECIFICATION MCSpec
 CONSTANTS
-  Slot = {1,2,3}
-  NameIds = {1}
-  FlagSet = {0,1,2,3,4,5,6,7}
-  MaxUnique = 4
+  Slot = {1,2}
+  NameIds = {1,2}
+  FlagSet = {0}
+  MaxUnique = 3
   Uids = {0}
-  Ops = {"names", "close", "odd"}
-  LimNames = 3
-  LimMatch = 2
-  LimReplies = 2
-  LimCompleted = 3
-  LimPerUser = 3
-  SendTy = {}
-  SendSer = {}
-  SendRs = {}
-  SendFl = {}
+  Ops = {"names", "close", "match", "send"}
+  LimNames = 2
+  LimMatch = 1
+  LimReplies = 1
+  LimCompleted = 2
+  LimPerUser = 2
+  SendTy = {1}
+  SendSer = {1,2}
+  SendRs = {0}
+  SendFl = {0}
 VIEW View
 INVARIANTS TypeOK QueueNoDup OnlyActiveQueued ReservedNamesNeverOwned NamesWithinLimit UniqueNamesDistinct UniqueNamesRecorded SenderIsOrigin RulesWithinLimit PendWithinLimit NoRulesForAbsent PendWellFormed AtMostOneCopy OnlyLiveRecipients ErrorXorDelivery CompletedWithinLimit PerUserWithinLimit
 PROPERTIES OwnerChangeSignalled UniqueNeverReused RefusalChangesNothing UnicastToOwnerOnly BroadcastOnlyToMatching SlotOnlyForDeliveredCall NoReplyOnlyOnExpiry
